@@ -566,7 +566,7 @@ def statement_kinds(ctx):
 
 def random_cases(quick, seed):
     sizes = [2, 3, 4, 5, 6, 8, 10, 12] if quick else [2, 3, 4, 5, 6, 8, 10, 12, 16, 20, 25]
-    per = 36 if quick else 500
+    per = 48 if quick else 800
     for size in sizes:
         for n in range(per):
             for home in HOMES[:4] if n % 3 else HOMES:
@@ -576,7 +576,7 @@ def random_cases(quick, seed):
 @item('random-programs', stands_in_for=['bridgepoint.prebuild.prebuild_action', 'bridgepoint.prebuild.ActionPrebuilder'],
       bound='seeded random programs of 2..12 (quick) / 2..25 (thorough) statements, nesting depth <= 3, expressions of depth <= 3 over '
             'literals, variables, attribute/parameter reads, enumerators, constants, arithmetic, comparisons, and/or/not, cardinality/empty/'
-            'not_empty, invocations with named parameters; 36 (quick) / 500 (thorough) programs per size and home; non-trivial = distinct text',
+            'not_empty, invocations with named parameters; 48 (quick) / 800 (thorough) programs per size and home; non-trivial = distinct text',
       shards=10, weight=3)
 def random_programs(ctx):
     for i, (home, gen, size) in enumerate(random_cases(ctx.quick, ctx.seed)):
